@@ -27,12 +27,17 @@ that mentions it stops compiling):
     expressions are constant-folded with Python's short-circuit rules; using an optional parameter as a number
     where it is not known to be `Some` is an error.
   * expressions: names, int literals (ofZ), decimal literals (exact rational, ofQ; integral ones ofZ),
-    + - * /, unary -, `e ** 2` (as e*e, see note), comparisons (chains too), and/or/not on booleans,
+    + - * /, unary -, `e ** 2` (as e*e, see note), `e ** k` for a literal k >= 3 (field powi) and `e ** f` (field pow_),
+    comparisons (chains too), and/or/not on booleans,
     `a if c else b`, max/min of two numbers (Python's tie rule), tuples,
     library calls of LIB (math/numpy sqrt -> sqrt; exp, log, norm.cdf/pdf/ppf, poisson.pmf/cdf/ppf, is_integer,
-    golden_section_search -> oracle fields of Ops), and calls of other translated stockpyl functions
+    golden_section_search, gamma.pdf/cdf/mean(.., scale=b), nbinom.pmf/cdf -> oracle fields of Ops), and calls of other translated stockpyl functions
     (propagating ValueError).  Names are resolved through the module's real import statements (star imports
     are expanded by importing the library), so a shadowed name resolves to what Python would call.
+  * SPECIALIZE: a function can additionally be translated with a boolean parameter fixed to a constant
+    (`eoq_with_disruptions[approximate=True]` -> Definition eoq_with_disruptions__approximate_True without that
+    parameter): only the statements reachable under that value are translated, so a closed-form branch can be tied
+    to the source even when the other branch (loops, search) is outside the subset.
 Not modelled (stated in the claim): exceptions other than the ValueError guards (math.sqrt of a negative number,
 float division by zero), `e ** 2` computed by libm pow (the harness skips the ~0.1% inputs on which libm's pow is
 not correctly rounded), ints are read as floats.
@@ -50,15 +55,20 @@ GEN = os.path.join(vlib.COQ, 'gen')
 EXPECTED = [
     'eoq.economic_order_quantity', 'eoq.economic_order_quantity_with_backorders', 'eoq.economic_production_quantity',
     'loss_functions.standard_normal_loss', 'loss_functions.normal_loss', 'loss_functions.poisson_loss',
+    'loss_functions.standard_normal_second_loss', 'loss_functions.normal_second_loss', 'loss_functions.lognormal_loss',
+    'loss_functions.exponential_loss', 'loss_functions.exponential_second_loss', 'loss_functions.gamma_loss', 'loss_functions.gamma_second_loss',
+    'loss_functions.uniform_loss', 'loss_functions.uniform_second_loss', 'loss_functions.poisson_second_loss',
+    'loss_functions.geometric_loss', 'loss_functions.geometric_second_loss',
+    'loss_functions.negative_binomial_loss', 'loss_functions.negative_binomial_second_loss',
     'newsvendor.newsvendor_normal', 'newsvendor.newsvendor_normal_cost', 'newsvendor.newsvendor_poisson',
     'newsvendor.newsvendor_poisson_cost', 'newsvendor.myopic', 'newsvendor.myopic_cost',
     'newsvendor.newsvendor_normal_explicit', 'newsvendor.newsvendor_poisson_explicit',
-    'supply_uncertainty.eoq_with_disruptions', 'supply_uncertainty.eoq_with_disruptions_cost',
+    'supply_uncertainty.eoq_with_disruptions[approximate=True]', 'supply_uncertainty.eoq_with_disruptions_cost',
     'supply_uncertainty.eoq_with_additive_yield_uncertainty', 'supply_uncertainty.eoq_with_multiplicative_yield_uncertainty',
 ]
 
 OPS_FIELDS = ['T', 'add', 'sub', 'mul', 'div', 'neg', 'sqrt', 'ofZ', 'ofQ', 'ltb', 'leb', 'eqb', 'is_int', 'exp_', 'log_',
-              'norm_cdf', 'norm_pdf', 'norm_ppf', 'poisson_pmf', 'poisson_cdf', 'poisson_ppf', 'gss']
+              'norm_cdf', 'norm_pdf', 'norm_ppf', 'poisson_pmf', 'poisson_cdf', 'poisson_ppf', 'gss', 'pow_', 'powi', 'lib']
 RESERVED = set(OPS_FIELDS) | set('''O Ops ROps FOps R Q Z N nat bool option list Some None true false fst snd pair
 as at cofix else end exists exists2 fix for forall fun if IF in let match mod Prop return Set then Type using where with
 Definition Lemma Theorem Proof Qed Section End Variable Hypothesis Import Export Require From andb orb negb
@@ -69,7 +79,20 @@ LIB1 = {'math.sqrt': 'sqrt', 'numpy.sqrt': 'sqrt', 'math.exp': 'exp_', 'numpy.ex
         'math.log': 'log_', 'numpy.log': 'log_'}
 NORM = {'scipy.stats.norm.cdf': 'norm_cdf', 'scipy.stats.norm.pdf': 'norm_pdf', 'scipy.stats.norm.ppf': 'norm_ppf'}
 POIS = {'scipy.stats.poisson.pmf': 'poisson_pmf', 'scipy.stats.poisson.cdf': 'poisson_cdf', 'scipy.stats.poisson.ppf': 'poisson_ppf'}
+# library functions addressed by number (Ops field `lib`): canonical name -> (id, number of positional args, required keyword)
+LIBN = {'scipy.stats.gamma.pdf': (100, 2, 'scale'), 'scipy.stats.gamma.cdf': (101, 2, 'scale'), 'scipy.stats.gamma.mean': (102, 1, 'scale'),
+        'scipy.stats.nbinom.pmf': (103, 3, None), 'scipy.stats.nbinom.cdf': (104, 3, None)}
 MAXPATHS = 256
+# extra translations with a boolean parameter fixed: {qualified function: [{param: value}, ...]}
+SPECIALIZE = {'supply_uncertainty.eoq_with_disruptions': [{'approximate': True}]}
+
+
+def spec_key(q, static):
+    return q if not static else q + '[' + ','.join('%s=%s' % kv for kv in sorted(static.items())) + ']'
+
+
+def spec_name(f, static):
+    return f if not static else f + '__' + '_'.join('%s_%s' % kv for kv in sorted(static.items()))
 
 
 class TErr(Exception):
@@ -90,8 +113,8 @@ def ty_str(t):
 class Var:
     """kind: 'val' (coq name holds a value of type ty) | 'opt' (coq name holds an option (T O), status unknown)
              | 'none' (statically None)"""
-    def __init__(self, kind, ty, coq):
-        self.kind, self.ty, self.coq = kind, ty, coq
+    def __init__(self, kind, ty, coq, const=None):
+        self.kind, self.ty, self.coq, self.const = kind, ty, coq, const
 
 
 class E:
@@ -178,8 +201,8 @@ class Translator:
         return out
 
     # ---------------------------------------------------------------------------------------------
-    def function(self, mod, fname):
-        q = mod + '.' + fname
+    def function(self, mod, fname, static=None):
+        q = spec_key(mod + '.' + fname, static)
         if q in self.done:
             r = self.done[q]
             if isinstance(r, TErr): raise TErr('callee %s is not translatable: %s' % (q, r))
@@ -188,7 +211,7 @@ class Translator:
             raise TErr('recursive call cycle through %s' % q)
         self.active.append(q)
         try:
-            info = FuncTr(self, self.module(mod), fname).run()
+            info = FuncTr(self, self.module(mod), fname, static).run()
             self.done[q] = info
             return info
         except TErr as e:
@@ -201,8 +224,10 @@ class Translator:
 
 
 class FuncTr:
-    def __init__(self, tr, mod, fname):
+    def __init__(self, tr, mod, fname, static=None):
         self.tr, self.mod, self.fname = tr, mod, fname
+        self.static = dict(static or {})
+        self.coqname = spec_name(fname, self.static)
         self.node = mod.funcs[fname]
         self.paths = 0
         self.tmp = 0
@@ -248,6 +273,10 @@ class FuncTr:
             elif isinstance(d, ast.Constant) and isinstance(d.value, bool):
                 p = dict(name=name, kind='bool', default='true' if d.value else 'false')
                 env[name] = Var('val', BOOL, cn)
+                if name in self.static:
+                    if not isinstance(self.static[name], bool): self.err(self.node, 'only boolean parameters can be fixed')
+                    env[name] = Var('val', BOOL, 'true' if self.static[name] else 'false', const=self.static[name])
+                    continue
             else:
                 e = self.const_num(d)
                 if e is None: self.err(d, 'unsupported default value for parameter %s' % name)
@@ -255,6 +284,8 @@ class FuncTr:
                 env[name] = Var('val', NUM, cn)
             p['coq'] = cn
             params.append(p)
+        for k in self.static:
+            if k not in env or env[k].const is None: self.err(self.node, 'cannot fix parameter %s (not a boolean parameter with a default)' % k)
         body = self.stmts(list(self.node.body), env, 1)
         if self.ret_ty is None:
             self.err(self.node, 'no return statement reached')
@@ -262,10 +293,11 @@ class FuncTr:
         rty = ty_str(self.ret_ty)
         if not rty.startswith('('): rty = '(' + rty + ')'
         text = '(* %s.py:%d *)\nDefinition %s (O : Ops) %s : option %s :=\n%s.\n' % (
-            self.mod.name, self.node.lineno, self.fname, sig, rty, body)
-        q = self.mod.name + '.' + self.fname
+            self.mod.name, self.node.lineno, self.coqname, sig, rty, body)
+        if self.static: text = '(* specialised to %s *)\n' % ', '.join('%s=%s' % kv for kv in sorted(self.static.items())) + text
+        q = spec_key(self.mod.name + '.' + self.fname, self.static)
         self.tr.text[q] = text
-        return dict(module=self.mod.name, name=self.fname, params=params, ret=self.ret_ty,
+        return dict(module=self.mod.name, name=self.fname, coqname=self.coqname, static=self.static, params=params, ret=self.ret_ty,
                     oracles=sorted(self.oracles), calls=sorted(self.calls), lineno=self.node.lineno, paths=self.paths)
 
     def const_num(self, d):
@@ -476,7 +508,7 @@ class FuncTr:
             if v.kind == 'opt': self.err(node, 'optional parameter %s used as a value where it may be None' % node.id)
             if v.kind == 'none': self.err(node, 'parameter %s is None on this path but is used as a value' % node.id)
             if isinstance(v.ty, tuple) and v.ty[0] == 'fun': self.err(node, 'function value %s used as data' % node.id)
-            return E(v.coq, v.ty)
+            return E(v.coq, v.ty, v.const)
         if isinstance(node, ast.UnaryOp):
             if isinstance(node.op, ast.Not):
                 e = self.expr(node.operand, env)
@@ -490,12 +522,19 @@ class FuncTr:
         if isinstance(node, ast.BinOp):
             if isinstance(node.op, ast.Pow):
                 r = node.right
-                if not (isinstance(r, ast.Constant) and isinstance(r.value, int) and not isinstance(r.value, bool) and r.value == 2):
-                    self.err(node, '`**` is supported with the literal exponent 2 only')
                 a = self.num(node.left, env)
-                if self.atomic(a.term): return E('(mul O %s %s)' % (a.term, a.term), NUM)
-                t = self.fresh('sq')
-                return E('(let %s := %s in mul O %s %s)' % (t, a.term, t, t), NUM)
+                if isinstance(r, ast.Constant) and isinstance(r.value, int) and not isinstance(r.value, bool):
+                    if r.value == 2:
+                        if self.atomic(a.term): return E('(mul O %s %s)' % (a.term, a.term), NUM)
+                        t = self.fresh('sq')
+                        return E('(let %s := %s in mul O %s %s)' % (t, a.term, t, t), NUM)
+                    if r.value >= 3:
+                        self.oracles.add('powi')
+                        return E('(powi O %s %d)' % (a.term, r.value), NUM)
+                    self.err(node, '`**` with the literal exponent %r' % r.value)
+                b = self.num(r, env)
+                self.oracles.add('pow_')
+                return E('(pow_ O %s %s)' % (a.term, b.term), NUM)
             op = {ast.Add: 'add', ast.Sub: 'sub', ast.Mult: 'mul', ast.Div: 'div'}.get(type(node.op))
             if op is None: self.err(node, 'unsupported binary operator %s' % type(node.op).__name__)
             a = self.num(node.left, env); b = self.num(node.right, env)
@@ -605,6 +644,15 @@ class FuncTr:
                 s = self.fresh('sc')
                 return E('(let %s := %s in div O (norm_pdf O (div O (sub O %s %s) %s)) %s)' % (s, sc, x, loc, s, s), NUM)
             self.err(node, '%s with %d arguments' % (name, nargs))
+        if name in LIBN:
+            lid, npos, kw = LIBN[name]
+            if nargs != npos or [k.arg for k in node.keywords] != ([kw] if kw else []):
+                self.err(node, '%s: expected %d positional argument(s)%s' % (name, npos, ' and keyword %s' % kw if kw else ''))
+            ts = [self.num(a, env).term for a in node.args] + [self.num(k.value, env).term for k in node.keywords]
+            self.oracles.add('lib%d' % lid)
+            lst = 'nil'
+            for t in reversed(ts): lst = '(cons %s %s)' % (t, lst)
+            return E('(lib O %d %s)' % (lid, lst), NUM)
         if name in POIS:
             f = POIS[name]
             if node.keywords or nargs != 2: self.err(node, '%s needs exactly two positional arguments' % name)
@@ -692,6 +740,11 @@ def translate_all(write=True):
                 funcs[m + '.' + f] = tr.function(m, f)
             except TErr as e:
                 errors.append((m + '.' + f, str(e)))
+            for static in SPECIALIZE.get(m + '.' + f, []):
+                try:
+                    funcs[spec_key(m + '.' + f, static)] = tr.function(m, f, static)
+                except TErr as e:
+                    errors.append((spec_key(m + '.' + f, static), str(e)))
     # emit in dependency order inside each module
     for m in MODULES:
         mod = tr.mods.get(m)
@@ -702,7 +755,9 @@ def translate_all(write=True):
             for c in funcs[q]['calls']:
                 if c.split('.')[0] == m: emit(c)
             emitted.append(q); lines.append(tr.text[q])
-        for f in mod.order: emit(m + '.' + f)
+        for f in mod.order:
+            emit(m + '.' + f)
+            for static in SPECIALIZE.get(m + '.' + f, []): emit(spec_key(m + '.' + f, static))
         deps = sorted({c.split('.')[0] for q in emitted for c in funcs[q]['calls']} - {m})
         head = '(* GENERATED by py/py2v.py from stockpyl/%s.py -- do not edit; regenerated on every check run.\n' % m
         head += '   Each definition is the Python function of the same name over the operations record of Base/Ops.v;\n'
